@@ -64,7 +64,8 @@ Definition check (c : Z * list (Z * Z) * bool * string) : Z :=
 
     def impl(self, case):
         try:
-            return dict(s=make_row([tuple(p) for p in case['ps']]).cigarString)
+            s = make_row([tuple(p) for p in case['ps']]).cigarString
+            return dict(s=s if len(s) <= 6000 else s[:6000] + '...[%d chars]' % len(s))
         except Exception as e:
             return dict(err=type(e).__name__)
 
